@@ -65,7 +65,7 @@ Section Empties.
   Lemma ref_alt_empty fwd : ref fwd (NAlt NEmpty NEmpty) NEmpty.
   Proof.
     split; [|apply rstep_nol1; reflexivity].
-    exists 0%nat. intros [|f] _ x r _ E; [discriminate|]. rewrite Nat.add_0_r. rewrite ir_alt_eq in E.
+    exists 0%nat. intros [|f] x r _ E; [discriminate|]. rewrite Nat.add_0_r. rewrite ir_alt_eq in E.
     destruct f as [|f]; [discriminate|]. rewrite ir_empty_eq in E. inversion E; subst.
     exists [x]. split; [apply ir_empty_eq|apply (dd_twice [x])].
   Qed.
